@@ -66,7 +66,7 @@ theorem mergeStep_vk_none (l r s : Sorted) (h : mergeStep l r = .ok s) (hr : r.v
   split <;> simp_all
 
 /-- the star parameter a merge step yields carries the name of one of the operands' -/
-theorem addStarargs_name (l r : Sorted) (wL wR : Bool) (left right : Option Param) (src : Srcs) (p : Param)
+theorem addStarargs_name_C08 (l r : Sorted) (wL wR : Bool) (left right : Option Param) (src : Srcs) (p : Param)
     (h : (addStarargs l r wL wR left right src).1 = some p) :
     (∃ q, left = some q ∧ p.name = q.name) ∨ (∃ q, right = some q ∧ p.name = q.name) := by
   unfold addStarargs at h
